@@ -23,6 +23,7 @@ func configs() []*sched.Config {
 }
 
 func TestCheck(t *testing.T) {
+	vk.UseT(t)
 	cfgs := configs()
 	sched.WorkerMain(cfgs)
 	r := vk.Start("C09", "model_checking", 150*time.Second, 18*time.Minute)
